@@ -344,12 +344,22 @@ Definition nodes_consistent (L : layout) : bool :=
 
 (* ================================================================== distribution rules (commander.py) *)
 (* A ProcessStartCommand as far as placement is concerned:
-     c_proc    : process identity (reporting only),
-     c_load    : process.rules.expected_load,
-     c_stopped : process.stopped(),
-     c_target  : command.identifier,
-     c_known   : keys of process.info_map (update_identifier reads info_map.get(identifier)['startsecs']). *)
-Record cmd := mkCmd { c_proc : Z; c_load : Z; c_stopped : bool; c_target : option Z; c_known : list Z }.
+     c_proc     : process identity (reporting only),
+     c_load     : process.rules.expected_load,
+     c_stopped  : process.stopped(),
+     c_target   : command.identifier,
+     c_known    : keys of process.info_map (update_identifier reads info_map.get(identifier)['startsecs']),
+     c_disabled : identifiers whose info_map entry has 'disabled' set. *)
+Record cmd := mkCmd { c_proc : Z; c_load : Z; c_stopped : bool; c_target : option Z; c_known : list Z;
+                      c_disabled : list Z }.
+
+(* identifier in process.info_map and not process.disabled_on(identifier) *)
+Definition eligible (c : cmd) (i : Z) : bool :=
+  zmem i (c_known c) && negb (zmem i (c_known c) && zmem i (c_disabled c)).
+
+(* the same command with another target *)
+Definition retarget (c : cmd) (t : Z) : cmd :=
+  mkCmd (c_proc c) (c_load c) (c_stopped c) (Some t) (c_known c) (c_disabled c).
 
 (* ApplicationStartJobs as far as placement is concerned: current_jobs, planned_jobs flattened in dict order
    (sum(planned_jobs.values(), [])), identifiers *)
@@ -373,7 +383,7 @@ Definition update_identifier (L : layout) (c : cmd) (i : option Z) : result cmd 
   | Some t =>
       if amem t (l_insts L)
       then if zmem t (c_known c)
-           then Ok (mkCmd (c_proc c) (c_load c) (c_stopped c) (Some t) (c_known c))
+           then Ok (retarget c t)
            else Crash TypeError
       else Crash KeyError
   end.
@@ -396,7 +406,18 @@ Definition distribute_to_single_instance (s : strategy) (local : Z) (L : layout)
                  | None => Ok J
                  end).
 
-(* distribute_to_single_node. [app_ids] = application.possible_node_identifiers(). *)
+(* distribute_to_single_node. [app_ids] = application.possible_node_identifiers().
+   For each command the candidates are the identifiers of the chosen node that know the program and have it enabled;
+   update_identifier is called only when an identifier was found (otherwise the command keeps its target and will
+   end with 'No resource available' when processed). *)
+Definition place_among (s : strategy) (local : Z) (L : layout) (idents : list Z) (reqs : alist Z) (c : cmd)
+  : result cmd :=
+  bind (get_supvisors_instance s local L (filter (eligible c) idents) (c_load c) reqs)
+       (fun r => match r with
+                 | Some t => update_identifier L c (Some t)
+                 | None => Ok c
+                 end).
+
 Definition distribute_to_single_node (s : strategy) (local : Z) (L : layout) (app_ids : list Z)
            (app_load : Z) (J : jobs) : result jobs :=
   let reqs := load_requests J in
@@ -408,9 +429,7 @@ Definition distribute_to_single_node (s : strategy) (local : Z) (L : layout) (ap
           | [] => Ok (mkJobs (j_current J) (j_planned J) [])
           | _ =>
               (* load_request_map is computed once, before the loop *)
-              bind (mapM (fun c => bind (get_supvisors_instance s local L idents (c_load c) reqs)
-                                        (fun r => update_identifier L c r))
-                         (j_planned J))
+              bind (mapM (place_among s local L idents reqs) (j_planned J))
                    (fun pl => Ok (mkJobs (j_current J) pl idents))
           end).
 
@@ -433,13 +452,15 @@ Definition on_command_added (d : distribution) (s : strategy) (local : Z) (L : l
       match j_identifiers J with
       | [] => Ok c
       | _ =>
-          bind (get_supvisors_instance s local L (j_identifiers J) (c_load c) (load_requests J))
-               (fun r => match r with
-                         | Some t => update_identifier L c (Some t)
-                         | None => Ok c
-                         end)
+          place_among s local L (j_identifiers J) (load_requests J) c
       end
   end.
+
+(* SupvisorsMapper.identify, as far as mapper.nodes is concerned: the identifier is appended to the list of its
+   machine id unless it is already listed there (second handshake of the same instance). *)
+Definition identify_nodes (nodes : alist (list Z)) (m i : Z) : alist (list Z) :=
+  let l := dget m nodes [] in
+  aset m (if zmem i l then l else l ++ [i]) nodes.
 
 (* ================================================================== T3 cases and evaluators *)
 Definition crash_result_eqb {A} (eqb : A -> A -> bool) (a b : result A) : bool :=
@@ -489,19 +510,14 @@ Definition scase_spec_rejects (c : scase) : bool :=
       end
   end.
 
-(* outside every known-finding class: well-formed layout whose node lists are duplicate free and consistent *)
+(* precondition of the specification: a well-formed layout whose node lists are consistent and duplicate free
+   (that mapper.nodes is duplicate free is established on the real identify() by the suite 'identify' below). *)
 Definition scase_spec_violation (c : scase) : bool :=
   layout_wf (sc_layout c) (sc_reqs c) && nodes_consistent (sc_layout c) && nodes_nodup (sc_layout c)
   && scase_spec_rejects c.
 
-(* known-finding class 'nodes-double-count' (F6): an identifier listed twice in its node's list *)
-Definition scase_known_double_count (c : scase) : bool :=
-  layout_wf (sc_layout c) (sc_reqs c) && negb (nodes_nodup (sc_layout c))
-  && nodes_consistent (sc_layout c) && scase_spec_rejects c.
-
 Definition s_mismatches (cs : list scase) : list nat := find_idx scase_mismatch cs.
 Definition s_spec_violations (cs : list scase) : list nat := find_idx scase_spec_violation cs.
-Definition s_known_double_count (cs : list scase) : list nat := find_idx scase_known_double_count cs.
 
 (* ---- suite 'distribute' : ApplicationStartJobs.before() / on_command_added on real jobs *)
 Inductive dop :=
@@ -544,16 +560,14 @@ Definition dcase_mismatch (c : dcase) : bool :=
   | _, _ => true
   end.
 
-Definition all_some_in (targets : list (option Z)) (l : list Z) : bool :=
-  forallb (fun t => match t with Some i => zmem i l | None => false end) targets.
-
 (* Spec for the distribution rules, evaluated on the observed outcome (true node load reading):
    SINGLE_INSTANCE: either nothing is assigned and no instance can carry the whole sequence, or every command
-     has the same target t, identifiers = [t], and t is what the strategy picks among the application's
-     identifiers for the whole application load;
-   SINGLE_NODE: either identifiers = [] and nothing changed, or all targets belong to identifiers, identifiers
-     are application identifiers located on ONE node, and each target is what the strategy picks among them
-     for that command's load. *)
+     has the same target t, identifiers = [t], t is what the strategy picks among the application's
+     identifiers for the whole application load, and every program is known and enabled on t;
+   SINGLE_NODE: either identifiers = [] and nothing changed, or identifiers are application identifiers located
+     on ONE node and each command is placed as [placed_ok] says: on the identifier the strategy picks, for that
+     command's load, among the identifiers of that node that know the program and have it enabled — or nowhere
+     when there is none (the command then ends with 'No resource available'). *)
 Definition same_node (L : layout) (l : list Z) : bool :=
   match l with
   | [] => true
@@ -563,6 +577,19 @@ Definition same_node (L : layout) (l : list Z) : bool :=
               end
   end.
 
+(* what the rule demands for one command placed among [idents] with the requests [reqs]:
+   the target is what the strategy picks among the identifiers that know the program and have it enabled
+   (hence it is eligible); when nobody qualifies the command keeps its target. *)
+Definition placed_ok (nl : Z -> Z) (s : strategy) (local : Z) (L : layout) (idents : list Z) (reqs : alist Z)
+           (c : cmd) (t : option Z) : bool :=
+  let cands := filter (eligible c) idents in
+  if spec_accepts nl s local L cands (c_load c) reqs None
+  then optz_eqb t (c_target c)
+  else match t with
+       | Some i => eligible c i && zmem i idents && spec_accepts nl s local L cands (c_load c) reqs (Some i)
+       | None => false
+       end.
+
 Definition dcase_spec_rejects (c : dcase) : bool :=
   match distribution_of_code (dc_dist c), strategy_of_code (dc_strategy c) with
   | Some d, Some s =>
@@ -571,7 +598,7 @@ Definition dcase_spec_rejects (c : dcase) : bool :=
       let reqs := load_requests J in
       let nl := node_true_load L in
       match dc_op c, dc_obs c with
-      | _, Crash _ => true
+      | _, Crash _ => true          (* a well-formed start must not raise *)
       | DBefore, Ok (idents, targets) =>
           match d with
           | D_ALL_INSTANCES =>
@@ -581,6 +608,8 @@ Definition dcase_spec_rejects (c : dcase) : bool :=
               match idents with
               | [t] =>
                   negb (forallb (fun x => optz_eqb x (Some t)) targets)
+                  || negb (Nat.eqb (length targets) (length (j_planned J)))
+                  || negb (forallb (fun k => eligible k t) (j_planned J))
                   || negb (spec_accepts nl s (dc_local c) L (dc_app_ids c) (dc_app_load c) reqs (Some t))
               | _ =>
                   negb (list_eqb Z.eqb idents (j_identifiers J))
@@ -593,9 +622,8 @@ Definition dcase_spec_rejects (c : dcase) : bool :=
               | _ =>
                   negb (forallb (fun i => zmem i (dc_app_ids c)) idents)
                   || negb (same_node L idents)
-                  || negb (all_some_in targets idents)
                   || negb (Nat.eqb (length targets) (length (j_planned J)))
-                  || existsb (fun ct => negb (spec_accepts nl s (dc_local c) L idents (c_load (fst ct)) reqs (snd ct)))
+                  || existsb (fun ct => negb (placed_ok nl s (dc_local c) L idents reqs (fst ct) (snd ct)))
                              (combine (j_planned J) targets)
               end
           end
@@ -605,55 +633,93 @@ Definition dcase_spec_rejects (c : dcase) : bool :=
           || match d, j_identifiers J, targets with
              | D_ALL_INSTANCES, _, [t] => negb (optz_eqb t (c_target k))
              | _, [], [t] => negb (optz_eqb t (c_target k))
-             | _, _, [Some t] =>
-                 negb (spec_accepts nl s (dc_local c) L (j_identifiers J) (c_load k) (load_requests J') (Some t))
-             | _, _, [None] =>
-                 negb (optz_eqb None (c_target k))
-                 || negb (spec_accepts nl s (dc_local c) L (j_identifiers J) (c_load k) (load_requests J') None)
+             | _, _, [t] => negb (placed_ok nl s (dc_local c) L (j_identifiers J) (load_requests J') k t)
              | _, _, _ => true
              end
       end
   | _, _ => false
   end.
 
-(* input classes of the known candidate findings on SINGLE_NODE (both end in an exception):
-   F7  : some planned process is not known by every candidate identifier of the application;
-   'single-node-overload' : a planned command is heavier than the whole start-sequence load used to pick the node
-                            (process outside the start sequence), so the per-command choice may find nobody
-                            and update_identifier(None) raises KeyError. *)
-Definition dcase_class_unknown_process (c : dcase) : bool :=
-  let cmds := match dc_op c with DBefore => j_planned (dc_jobs c) | DAdded k => [k] end in
-  let ids := match dc_op c with DBefore => dc_app_ids c | DAdded _ => j_identifiers (dc_jobs c) end in
-  existsb (fun k => existsb (fun i => negb (zmem i (c_known k))) ids) cmds.
-Definition dcase_class_overload (c : dcase) : bool :=
-  match dc_op c with
-  | DBefore => existsb (fun k => Z.ltb (dc_app_load c) (c_load k)) (j_planned (dc_jobs c))
-  | DAdded _ => false
-  end.
-
+(* precondition: well-formed, consistent, duplicate-free layout; a job enters before() without identifiers *)
 Definition dcase_wf (c : dcase) : bool :=
   let L := dc_layout c in
   let J := match dc_op c with
            | DBefore => dc_jobs c
            | DAdded k => mkJobs (j_current (dc_jobs c)) (j_planned (dc_jobs c) ++ [k]) (j_identifiers (dc_jobs c))
            end in
-  layout_wf L (load_requests J) && nodes_consistent L.
+  layout_wf L (load_requests J) && nodes_consistent L && nodes_nodup L
+  && match dc_op c with DBefore => match j_identifiers (dc_jobs c) with [] => true | _ => false end | DAdded _ => true end.
 
-Definition dcase_spec_violation (c : dcase) : bool :=
-  dcase_wf c && nodes_nodup (dc_layout c)
-  && negb (dcase_class_unknown_process c) && negb (dcase_class_overload c)
-  && dcase_spec_rejects c.
-Definition dcase_known_double_count (c : dcase) : bool :=
-  dcase_wf c && negb (nodes_nodup (dc_layout c))
-  && negb (dcase_class_unknown_process c) && negb (dcase_class_overload c)
-  && dcase_spec_rejects c.
-Definition dcase_known_unknown_process (c : dcase) : bool :=
-  dcase_wf c && dcase_class_unknown_process c && dcase_spec_rejects c.
-Definition dcase_known_overload (c : dcase) : bool :=
-  dcase_wf c && negb (dcase_class_unknown_process c) && dcase_class_overload c && dcase_spec_rejects c.
+Definition dcase_spec_violation (c : dcase) : bool := dcase_wf c && dcase_spec_rejects c.
 
 Definition d_mismatches (cs : list dcase) : list nat := find_idx dcase_mismatch cs.
 Definition d_spec_violations (cs : list dcase) : list nat := find_idx dcase_spec_violation cs.
-Definition d_known_double_count (cs : list dcase) : list nat := find_idx dcase_known_double_count cs.
-Definition d_known_unknown_process (cs : list dcase) : list nat := find_idx dcase_known_unknown_process cs.
-Definition d_known_overload (cs : list dcase) : list nat := find_idx dcase_known_overload cs.
+
+(* ---- suite 'identify' : handshakes on the real Context.on_identification_event / SupvisorsMapper.identify *)
+(* One operation = one handshake of instance [h_inst] announcing machine id [h_node]; when [h_accepted] is false the
+   identification event is older than the CHECKING date and is ignored by Context.on_identification_event.
+   After the handshake the instance is RUNNING (it is lost and stopped first when it was RUNNING already). *)
+Record hs := mkHs { h_inst : Z; h_node : Z; h_accepted : bool }.
+
+(* per-instance local_view.machine_id (set by the FIRST accepted identification only) and mapper.nodes *)
+Definition idstate := (alist Z * alist (list Z))%type.
+
+Definition hs_step (st : idstate) (o : hs) : idstate :=
+  if h_accepted o
+  then (match aget (h_inst o) (fst st) with
+        | Some _ => fst st
+        | None => aset (h_inst o) (h_node o) (fst st)
+        end,
+        identify_nodes (snd st) (h_node o) (h_inst o))
+  else st.
+
+Definition hs_run (ops : list hs) : idstate := fold_left hs_step ops ([], []).
+
+Record icase := mkICase {
+  ic_ops : list hs;
+  ic_insts : list (Z * Z);          (* all instances in mapper order with their load *)
+  ic_strategy : Z;
+  ic_ids : list Z;
+  ic_expected : Z;
+  ic_obs_nodes : alist (list Z);    (* observed mapper.nodes after the handshakes *)
+  ic_obs_inst : result (option Z)   (* observed get_supvisors_instance on the resulting real state *)
+}.
+
+Definition ic_layout (c : icase) (nodes : alist (list Z)) : layout :=
+  let views := fst (hs_run (ic_ops c)) in
+  mkLayout (map (fun il => (fst il,
+                            mkInst (if existsb (fun o => Z.eqb (h_inst o) (fst il)) (ic_ops c)
+                                    then gen_SupvisorsInstanceStates_RUNNING
+                                    else gen_SupvisorsInstanceStates_STOPPED)
+                                   (aget (fst il) views) (snd il)))
+                (ic_insts c))
+           nodes.
+
+Definition nodes_eqb (a b : alist (list Z)) : bool :=
+  list_eqb (fun x y => Z.eqb (fst x) (fst y) && list_eqb Z.eqb (snd x) (snd y)) a b.
+
+Definition icase_mismatch (c : icase) : bool :=
+  let nodes := snd (hs_run (ic_ops c)) in
+  negb (nodes_eqb nodes (ic_obs_nodes c))
+  || match strategy_of_code (ic_strategy c) with
+     | None => true
+     | Some s => negb (crash_result_eqb optz_eqb
+                         (get_supvisors_instance s 1 (ic_layout c nodes) (ic_ids c) (ic_expected c) [])
+                         (ic_obs_inst c))
+     end.
+
+(* spec on the OBSERVED mapper.nodes: whatever the handshake history, no identifier is listed twice in a node
+   (H_nodes_nodup holds of the real mapper), and when the node lists are consistent the answer obeys Spec_C14
+   for the true node load *)
+Definition icase_spec_violation (c : icase) : bool :=
+  let L := ic_layout c (ic_obs_nodes c) in
+  negb (nodes_nodup L)
+  || (layout_wf L [] && nodes_consistent L
+      && match strategy_of_code (ic_strategy c), ic_obs_inst c with
+         | Some s, Ok r => negb (spec_accepts (node_true_load L) s 1 L (ic_ids c) (ic_expected c) [] r)
+         | Some _, Crash _ => true
+         | None, _ => false
+         end).
+
+Definition i_mismatches (cs : list icase) : list nat := find_idx icase_mismatch cs.
+Definition i_spec_violations (cs : list icase) : list nat := find_idx icase_spec_violation cs.
